@@ -59,7 +59,7 @@ def main(argv):
     names = argv or sorted(n for n in os.listdir(SEEDED) if os.path.isfile(os.path.join(SEEDED, n, "meta.json")))
     os.environ.setdefault("A5_JOBS", "2")
     bad = 0
-    with ThreadPoolExecutor(6) as ex:
+    with ThreadPoolExecutor(int(os.environ.get("A5_SEED_THREADS", "6"))) as ex:
         for name, m in zip(names, ex.map(evaluate, names)):
             print(f"{name}: truth {m.get('breaks_claimed_properties')} fired {m['checks_that_report_a_violation']} "
                   f"undecided {m['checks_undecided']} missed {m['missed']} false alarms {m['false_alarms']} errors {m['analysis_errors']}")
